@@ -14,9 +14,67 @@ type edge struct{ from, to int }
 type cut struct {
 	edges  map[edge]bool
 	blocks map[int]bool
+	// triples: (pred, blk, succ): the transfer blk->succ is removed for control that entered
+	// blk from pred. Used for If blocks whose condition is a phi of values computed in the
+	// predecessors (go/ssa's form of tag-less switch cases and of conditions kept in variables).
+	triples map[[3]int]bool
 }
 
-func newCut() *cut { return &cut{edges: map[edge]bool{}, blocks: map[int]bool{}} }
+func newCut() *cut {
+	return &cut{edges: map[edge]bool{}, blocks: map[int]bool{}, triples: map[[3]int]bool{}}
+}
+
+// phiIf returns the phi that is the condition of the block's If, if the block is such a
+// "threaded" decision block.
+func phiIf(b *ssa.BasicBlock) (*ssa.Phi, *ssa.If) {
+	if len(b.Instrs) == 0 {
+		return nil, nil
+	}
+	iff, ok := b.Instrs[len(b.Instrs)-1].(*ssa.If)
+	if !ok {
+		return nil, nil
+	}
+	v := iff.Cond
+	for {
+		if u, ok := v.(*ssa.UnOp); ok && u.Op == token.NOT {
+			v = u.X
+			continue
+		}
+		break
+	}
+	phi, ok := v.(*ssa.Phi)
+	if !ok || phi.Block() != b {
+		return nil, nil
+	}
+	return phi, iff
+}
+
+// constBoolOutcome: if entering blk from its i-th predecessor fixes the If's outcome, which successor is taken?
+func constBoolOutcome(b *ssa.BasicBlock, predIdx int) (*ssa.BasicBlock, bool) {
+	phi, iff := phiIf(b)
+	if phi == nil || predIdx < 0 || predIdx >= len(phi.Edges) {
+		return nil, false
+	}
+	c, ok := phi.Edges[predIdx].(*ssa.Const)
+	if !ok || c.Value == nil {
+		return nil, false
+	}
+	val := c.Value.String() == "true"
+	// negations between the phi and the If
+	v := iff.Cond
+	for {
+		if u, ok := v.(*ssa.UnOp); ok && u.Op == token.NOT {
+			val = !val
+			v = u.X
+			continue
+		}
+		break
+	}
+	if val {
+		return b.Succs[0], true
+	}
+	return b.Succs[1], true
+}
 
 func (c *cut) cutEdge(from, to *ssa.BasicBlock) { c.edges[edge{from.Index, to.Index}] = true }
 func (c *cut) cutBlock(b *ssa.BasicBlock)       { c.blocks[b.Index] = true }
@@ -28,19 +86,48 @@ func reachableFrom(from *ssa.BasicBlock, c *cut) map[int]bool {
 	if c != nil && c.blocks[from.Index] {
 		return seen
 	}
-	var stack []*ssa.BasicBlock
-	stack = append(stack, from)
+	// state = (block, predecessor index) for threaded decision blocks, (block, -1) otherwise
+	type state struct{ b, p int }
+	visited := map[state]bool{}
+	type item struct {
+		b *ssa.BasicBlock
+		p int // index into b.Preds, or -1
+	}
+	stack := []item{{from, -1}}
+	visited[state{from.Index, -1}] = true
 	seen[from.Index] = true
 	for len(stack) > 0 {
-		b := stack[len(stack)-1]
+		it := stack[len(stack)-1]
 		stack = stack[:len(stack)-1]
+		b := it.b
+		forced, isForced := (*ssa.BasicBlock)(nil), false
+		if it.p >= 0 {
+			forced, isForced = constBoolOutcome(b, it.p)
+		}
 		for _, s := range b.Succs {
+			if isForced && s != forced {
+				continue
+			}
 			if c != nil && (c.edges[edge{b.Index, s.Index}] || c.blocks[s.Index]) {
 				continue
 			}
-			if !seen[s.Index] {
+			if c != nil && it.p >= 0 && c.triples[[3]int{b.Preds[it.p].Index, b.Index, s.Index}] {
+				continue
+			}
+			// entering s from b: remember which predecessor when s is a threaded decision block
+			pi := -1
+			if phi, _ := phiIf(s); phi != nil {
+				for i, p := range s.Preds {
+					if p == b {
+						pi = i
+					}
+				}
+			}
+			st := state{s.Index, pi}
+			if !visited[st] {
+				visited[st] = true
 				seen[s.Index] = true
-				stack = append(stack, s)
+				stack = append(stack, item{s, pi})
 			}
 		}
 	}
@@ -328,4 +415,113 @@ func mustPassThrough(fn *ssa.Function, through []*ssa.BasicBlock, exempt *cut) (
 		}
 	}
 	return true, nil
+}
+
+// decision is one branch decision of a function: an If, seen from any predecessor, or (for
+// a threaded decision block) from one particular predecessor with that predecessor's value.
+type decision struct {
+	If   *ssa.If
+	Pred *ssa.BasicBlock // nil: any predecessor
+	C    cond
+}
+
+func condOfValue(v ssa.Value, iff *ssa.If) cond {
+	c := cond{If: iff}
+	for {
+		if u, ok := v.(*ssa.UnOp); ok && u.Op == token.NOT {
+			c.Neg = !c.Neg
+			v = u.X
+			continue
+		}
+		break
+	}
+	if b, ok := v.(*ssa.BinOp); ok {
+		switch b.Op {
+		case token.EQL, token.NEQ, token.LSS, token.LEQ, token.GTR, token.GEQ:
+			c.Op, c.X, c.Y = b.Op, b.X, b.Y
+			return c
+		}
+	}
+	c.X = v
+	return c
+}
+
+// decisions lists the branch decisions of fn. Conditions held in cells (captured or local
+// variables) are resolved to the comparison that was stored, through `resolve`.
+func (m *Model) decisions(fn *ssa.Function, fr *frame) []decision {
+	var out []decision
+	norm := func(cd cond, iff *ssa.If) cond {
+		if cd.Op == token.ILLEGAL && cd.X != nil {
+			rv, _ := m.resolve(cd.X, fr)
+			if rv != cd.X {
+				inner := condOfValue(rv, iff)
+				if cd.Neg {
+					inner.Neg = !inner.Neg
+				}
+				return inner
+			}
+		}
+		return cd
+	}
+	for _, iff := range allIfs(fn) {
+		if phi, _ := phiIf(iff.Block()); phi != nil {
+			// negations between phi and If
+			neg := false
+			v := iff.Cond
+			for {
+				if u, ok := v.(*ssa.UnOp); ok && u.Op == token.NOT {
+					neg = !neg
+					v = u.X
+					continue
+				}
+				break
+			}
+			for i, e := range phi.Edges {
+				if _, isConst := e.(*ssa.Const); isConst {
+					continue // outcome fixed; handled by reachability itself
+				}
+				cd := condOfValue(e, iff)
+				if neg {
+					cd.Neg = !cd.Neg
+				}
+				out = append(out, decision{iff, iff.Block().Preds[i], norm(cd, iff)})
+			}
+			continue
+		}
+		out = append(out, decision{iff, nil, norm(condOf(iff), iff)})
+	}
+	return out
+}
+
+// cutSucc removes, from this decision, the transfer to successor s.
+func (d decision) cutSucc(c *cut, s *ssa.BasicBlock) {
+	b := d.If.Block()
+	if d.Pred == nil {
+		c.cutEdge(b, s)
+		return
+	}
+	c.triples[[3]int{d.Pred.Index, b.Index, s.Index}] = true
+}
+
+// cutEqual / cutNotEqual remove the edge taken when X == Y holds / does not hold.
+func (d decision) cutEqual(c *cut) bool {
+	eq, ok := d.C.equalEdge()
+	if !ok {
+		return false
+	}
+	d.cutSucc(c, eq)
+	return true
+}
+
+func (d decision) cutNotEqual(c *cut) bool {
+	eq, ok := d.C.equalEdge()
+	if !ok {
+		return false
+	}
+	for _, s := range d.If.Block().Succs {
+		if s != eq {
+			d.cutSucc(c, s)
+		}
+	}
+	return true
 }
